@@ -775,6 +775,123 @@ def check_joint_methods(rec, g, model, tb, malph, dalph, base, has_shift, odl_sc
             dsites.add(fam)
     return dsites
 
+# ------------------------------------------------------------------------------------------
+# history direction: driver-owned parameter buffers that are refilled in place
+
+def buffer_history(rec, site, calls, contents, sequence, symptom='differs_from_fresh_array'):
+    """Evaluate with the SAME float64 ndarray objects several times, refilling them in place
+    (``buf[:] = other``) between the calls.
+
+    calls: name -> function(list of arrays) -> array-like; contents: key -> list of arrays;
+    sequence: list of (call name, content key).  Every answer must equal the answer of the same
+    call for FRESH arrays with the same contents (obtained beforehand), and the buffers must
+    come back unmodified.  Fresh-array answers are compared with the model by the calling-
+    convention checks of the same state.
+    """
+    vsite = '%s[reused_buffer]' % site
+    fresh = {}
+    for cn, key in sorted(set(sequence)):
+        args = [np.array(c, dtype=float, copy=True) for c in contents[key]]
+        ok, r = rec.call(site, 'vectorized_', calls[cn], args, _fam='reused_buffer')
+        if not ok:
+            return
+        try:
+            fresh[cn, key] = np.array(r, dtype=float, copy=True)
+        except Exception:                # noqa
+            return
+    first = contents[sequence[0][1]]
+    bufs = [np.zeros(np.shape(c), dtype=float) for c in first]
+    hist = []
+    for step, (cn, key) in enumerate(sequence):
+        for b, c in zip(bufs, contents[key]):
+            b[:] = c
+        hist.append('%s(%s)' % (cn, key))
+        ok, r = rec.call(site, 'vectorized_', calls[cn], bufs, _fam='reused_buffer')
+        if not ok:
+            return
+        got = np.array(r, dtype=float, copy=True)
+        exp = fresh[cn, key]
+        if got.shape != exp.shape or not _close(got, exp):
+            rec.fail(vsite, symptom,
+                     'same ndarray objects refilled in place, history %s: call %d differs from '
+                     'the answer for fresh arrays with the same contents %s: %s'
+                     % (' -> '.join(hist), step + 1,
+                        [np.round(np.asarray(c), 6).tolist() for c in contents[key]],
+                        _worst(got, exp) if got.shape == exp.shape else
+                        'shape %s vs %s' % (got.shape, exp.shape)))
+            return
+        for b, c in zip(bufs, contents[key]):
+            if not np.array_equal(b, c):
+                rec.fail(vsite, 'input_array_modified', 'history %s: buffer %s became %s'
+                         % (' -> '.join(hist), np.asarray(c).tolist(), b.tolist()))
+                return
+
+
+def _contents(alph, idx):
+    return [np.asarray(a, dtype=float)[i].copy() for a, i in zip(alph, idx)]
+
+
+def check_reused_buffers(rec, g, others, tb, malph, dalph, base, div):
+    """Every evaluation function of the geometry, with one driver-owned buffer per motion and
+    per detector parameter: A, refill B, refill A; and alternately with other geometry
+    objects of the same class (``others``) on the same buffers."""
+    L = 5
+    rm, rd = len(tb.ms), len(tb.ds)
+    mc = {'A': _contents(malph, _Z(tb.ms, L)), 'B': _contents(malph, _Z(tb.ms, L, 1))}
+    dc = {'A': _contents(dalph, _Z(tb.ds, L, 2)), 'B': _contents(dalph, _Z(tb.ds, L, 3))}
+    both = dict((k, mc[k] + dc[k]) for k in mc)
+
+    def marg(b):
+        return b[0] if rm == 1 else tuple(b[:rm])
+
+    def darg(b):
+        return b[rm] if rd == 1 else tuple(b[rm:])
+
+    def motion(obj, name):
+        return lambda b: getattr(obj, name)(marg(b))
+
+    def joint(obj, name, kw):
+        return lambda b: getattr(obj, name)(marg(b), darg(b), **kw)
+
+    meths = [('rotation_matrix', None), ('det_refpoint', None)]
+    if div:
+        meths.append(('src_position', None))
+    meths.append(('det_axis' if rd == 1 else 'det_axes', None))
+    meths += [('det_point_position', {}), ('det_to_src', {})]
+    if div:
+        meths.append(('det_to_src', {'normalized': False}))
+    for name, kw in meths:
+        site = '%s.%s' % (base, name)
+        mk = (lambda o: motion(o, name)) if kw is None else (lambda o: joint(o, name, kw))
+        cont = mc if kw is None else both
+        buffer_history(rec, site, {'g': mk(g)}, cont, [('g', 'A'), ('g', 'B'), ('g', 'A')])
+        if name in ('rotation_matrix', 'det_point_position', 'det_to_src') and not (
+                kw and 'normalized' in kw):
+            for tag, o in others:
+                buffer_history(rec, site, {'g': mk(g), tag: mk(o)}, cont,
+                               [('g', 'A'), (tag, 'B'), ('g', 'A'), (tag, 'A'), ('g', 'B')],
+                               symptom='two_objects_differ_from_fresh_array')
+
+
+def other_geometries(cfg):
+    """Geometry objects of the same class for the alternating history: same axis (orientation)
+    with other translation / pitch, and another orientation.  Unbuildable ones are skipped
+    (their own states report that)."""
+    out = []
+    same = dict(cfg, transl=0 if cfg.get('transl') else 1)
+    if cfg['cls'] == 'ConeBeam':
+        same['pitch'] = [2.0, 0.0] if list(cfg['pitch']) != [2.0, 0.0] else [-1.5, 0.5]
+    first = 'z' if IS3D[cfg['cls']] and cfg['cls'] != 'Parallel3dEuler' else 'y'
+    alt = 'g122' if IS3D[cfg['cls']] else 'g34'
+    other = dict(cfg, orient=alt if cfg['orient'] == first else first)
+    for tag, c in (('same_axis', same), ('other_axis', other)):
+        try:
+            out.append((tag, build_geom(c)[0]()))
+        except Exception:                # noqa
+            pass
+    return out
+
+
 
 # ------------------------------------------------------------------------------------------
 # slicing, initial vectors, ASTRA vectors
@@ -1005,6 +1122,8 @@ def run_geom(cfg):
     odl_scalar = check_motion_methods(rec, g, model, tb, malph, base, has_shift)
     check_joint_methods(rec, g, model, tb, malph, dalph, base, has_shift, odl_scalar,
                         half=cfg.get('scal') == 'half')
+    check_reused_buffers(rec, g, other_geometries(cfg), tb, malph, dalph, base,
+                         model.beam == 'divergent')
     check_astra_vectors(rec, g, model, cfg)
     if cfg['cls'] != 'Parallel3dEuler':
         check_slicing(rec, g, model, cfg, base, has_shift)      # last: slicing may corrupt g
@@ -1058,6 +1177,11 @@ def run_det(cfg):
             'surface_normal': np.array([model.normal(d) for d in dc]),
             'surface_measure': np.array([model.measure(d) for d in dc])}
     curved = cfg['cls'] in ('Cylindrical', 'Spherical')
+    cont = {'A': _contents(alph, _Z(ds, 5)), 'B': _contents(alph, _Z(ds, 5, 2))}
+    for name in ('surface', 'surface_deriv', 'surface_normal', 'surface_measure'):
+        buffer_history(rec, '%s.%s' % (base, name),
+                       {'d': (lambda b, f=getattr(det, name): f(b[0] if len(b) == 1 else tuple(b)))},
+                       cont, [('d', 'A'), ('d', 'B'), ('d', 'A')])
     for name in ('surface', 'surface_deriv', 'surface_normal', 'surface_measure'):
         fn = getattr(det, name)
         site = '%s.%s' % (base, name)
@@ -1226,6 +1350,46 @@ def run_util(cfg):
                 if len(got) != len(exp) or not all(_close(a, b) for a, b in zip(got, exp)):
                     rec.fail(site, 'matrix_not_applied', 'matrix %s' % M.tolist())
         return _result(rec, site)
+    if fnname == 'reused_buffers':
+        a1, a2 = G.unit((1.0, 2.0, 2.0)), G.unit((2.0, -1.0, 2.0))
+        ang = {'A': [np.array(ANG['wide'][:5])], 'B': [np.array(ANG['wide'][5:10])]}
+        buffer_history(rec, 'axis_rotation_matrix',
+                       {'a1': lambda b: UT.axis_rotation_matrix(a1.copy(), b[0]),
+                        'a1_again': lambda b: UT.axis_rotation_matrix(tuple(a1), b[0]),
+                        'a2': lambda b: UT.axis_rotation_matrix(a2.copy(), b[0])},
+                       ang, [('a1', 'A'), ('a1', 'B'), ('a1', 'A'), ('a2', 'A'), ('a2', 'B'),
+                             ('a1_again', 'A'), ('a1', 'B')])
+        for n in (1, 2, 3):
+            alph = [ANG['wide']] if n == 1 else [list(a) for a in EUL[n]]
+            ms = tuple(len(a) for a in alph)
+            buffer_history(rec, 'euler_matrix',
+                           {'e': lambda b: UT.euler_matrix(*b)},
+                           {'A': _contents(alph, _Z(ms, 4)), 'B': _contents(alph, _Z(ms, 4, 1))},
+                           [('e', 'A'), ('e', 'B'), ('e', 'A')])
+        for O in (O2, O3):
+            vs = [np.array(v, dtype=float) for v in O.values()]
+            dim = len(vs[0])
+            default = (0.0, 1.0) if dim == 2 else (0.0, 0.0, 1.0)
+            pairs = {'A': [vs[4], vs[5]], 'B': [vs[6], vs[2]], 'C': [vs[5], vs[4]]}
+            buffer_history(rec, 'rotation_matrix_from_to[%dd]' % dim,
+                           {'r': lambda b: UT.rotation_matrix_from_to(b[0], b[1])}, pairs,
+                           [('r', 'A'), ('r', 'B'), ('r', 'A'), ('r', 'C')])
+            buffer_history(rec, 'transform_system[%dd]' % dim,
+                           {'t': lambda b: np.array(UT.transform_system(b[0], default, [b[1]])),
+                            'm': lambda b: np.array(UT.transform_system(
+                                default, None, [b[1]], matrix=np.outer(b[0], b[0]) + np.eye(dim)))},
+                           pairs, [('t', 'A'), ('t', 'B'), ('m', 'A'), ('m', 'B'), ('t', 'A')])
+            stack = {'A': [np.array(vs[:4])], 'B': [np.array(vs[4:8])]}
+            buffer_history(rec, 'perpendicular_vector',
+                           {'p': lambda b: UT.perpendicular_vector(b[0])}, stack,
+                           [('p', 'A'), ('p', 'B'), ('p', 'A')])
+            if dim == 3:
+                buffer_history(rec, 'axis_rotation',
+                               {'r': lambda b: UT.axis_rotation(a1.copy(), 0.7, b[0]),
+                                's': lambda b: UT.axis_rotation(a1.copy(), 0.7, b[0],
+                                                                axis_shift=(1.0, -0.5, 2.0))},
+                               stack, [('r', 'A'), ('r', 'B'), ('s', 'B'), ('s', 'A'), ('r', 'A')])
+        return _result(rec, 'reused_buffers')
     if fnname == 'perpendicular_vector':
         site = 'perpendicular_vector'
         for O in (O2, O3):
@@ -1446,6 +1610,7 @@ def configs(tier):
             cfgs.append({'kind': 'util', 'fn': 'rotation_matrix_from_to', 'dim': dim, 'frm': frm})
         cfgs.append({'kind': 'util', 'fn': 'transform_system', 'dim': dim})
     cfgs.append({'kind': 'util', 'fn': 'perpendicular_vector'})
+    cfgs.append({'kind': 'util', 'fn': 'reused_buffers'})
     # detectors
     for cb in (1, 0):
         for ax in O2_Q:
